@@ -491,13 +491,11 @@ def check_legacy(c: C13Collector):
 
 
 # =========================================================================== the public path
-def public_run(ctx: Ctx, W, policy, n_snaps=2, same_path=True):
+def public_run(ctx: Ctx, W, policy, n_snaps=2, same_path=True, seed=0):
     import torch
     from torchsnapshot import Snapshot, StateDict
     from lib.world import World
-    rng = ctx.rng
     root = ctx.scratch("c13pub")
-    seed = rng.randrange(1 << 30)
 
     def choose(labels):
         if policy.startswith("starve"):
@@ -574,12 +572,13 @@ def check_public(ctx: Ctx, res: Result):
     runs += [(ctx.rng.choice([2, 3]), "random") for _ in range(ctx.n(2, 20))]
     for W, policy in runs:
         for same_path in (True,) if policy != "random" else (True, False):
-            world, r, errs = public_run(ctx, W, policy, 2, same_path)
+            seed = ctx.rng.randrange(1 << 30)
+            world, r, errs = public_run(ctx, W, policy, 2, same_path, seed)
             res.case({"scenario": "public", "W": W, "policy": policy, "same_path": same_path, "events": len(world.events)}, nontrivial=True)
             res.count("scenario", "public")
             for sig, text in public_oracle(W, world, r, errs, 2):
                 res.failures.append(Failure(f"C13:{sig}", f"{text} [W={W} scheduling policy={policy} same_path={same_path}]",
-                                            {"public": True, "W": W, "policy": policy, "same_path": same_path}))
+                                            {"public": True, "W": W, "policy": policy, "same_path": same_path, "seed": seed}))
 
 
 # =========================================================================== entry points
@@ -598,7 +597,7 @@ def correspond(ctx: Ctx) -> Result:
 
 def replay(ctx: Ctx, data):
     if data.get("public"):
-        world, r, errs = public_run(ctx, data["W"], data["policy"] if data["policy"] != "random" else "starve1", 2, data.get("same_path", True))
+        world, r, errs = public_run(ctx, data["W"], data["policy"], 2, data.get("same_path", True), data.get("seed", 0))
         v = public_oracle(data["W"], world, r, errs, 2)
         return Failure(f"C13:{v[0][0]}", v[0][1], data) if v else None
     insts = [mk_inst(i["path"], i["bid"], i["iofail"], i["metafail"]) for i in data["insts"]]
